@@ -85,14 +85,14 @@ by a container), rendered under options `o` with `w` cells available.  Container
 (padding, panel, table, columns, tree) put NO condition on their children.
 * text: not `overflow="ignore"` (the documented opt-out), `end` is the line feed (or nothing);
 * `Constrain` / `Align` hand their child a narrower width: NO condition on that width (the theorems bound every line by
-  `max w (smin r)`: below its structural minimum a renderable is never wider than that minimum) — what is asked instead is local:
-  a table with free columns, and `Columns`, must be OFFERED one cell per column at the width they are actually rendered at;
+  `max w (smin r)`: below its structural minimum a renderable is never wider than that minimum; for a table with free columns and
+  for `Columns` offered LESS than one cell per column that is `Lemmas/LayoutTableLow.lean`: every column ends at exactly one cell);
 * group: every member in the domain, and every member but the last ends its line (a `ProgressBar` does not: F23);
 * table (any number of columns, also none): EITHER columns free to wrap (no `width`, `min_width`, `no_wrap`; every ratio is fine on the
   code with the repaired flexible-width clamp; on the code before fix 75c2776 a `ratio=0` column in an expanding table is excluded:
   finding `table-ratio-zero-column`), title / caption in the text domain and ending
-  their line, the width the table is laid out for (`Table(width=…)`, else the width on offer) leaves room for the borders and one
-  cell per column; OR arbitrary columns (fixed `width`,
+  their line — at EVERY width, an explicit `Table(width=…)` below the borders plus one cell per column included;
+  OR arbitrary columns (fixed `width`,
   `max_width`, `no_wrap`) that meet the budget `tableBudget` (a binding `min_width` makes the table up to `floorSum` cells wider than
   the offer: `table_general_bound`);
 * bar / progress bar: proper fractions (`den > 0`), no negative `width`. -/
@@ -114,14 +114,13 @@ def Dom (cfg : Cfg) : R → Opts → Nat → Prop
   | .progressBar po, _, _ => 0 < po.total.den ∧ 0 < po.completed.den ∧ 0 ≤ po.width.getD 0
   | .table to cols, o, w =>
     annDom to.title o ∧ annDom to.caption o ∧
-      (((∀ c ∈ cols, (colOptsOf c).wrappable ∧ ((cfg.fl.flexNegative = false ∧ cfg.fl.flexClampZero = false) ∨
-          (to.expand || to.width.isSome) = false ∨ (colOptsOf c).ratio ≠ some 0)) ∧
-        (cols = [] ∨ tableExtra to cols.length + cols.length ≤ to.width.getD w))
+      ((∀ c ∈ cols, (colOptsOf c).wrappable ∧ ((cfg.fl.flexNegative = false ∧ cfg.fl.flexClampZero = false) ∨
+          (to.expand || to.width.isSome) = false ∨ (colOptsOf c).ratio ≠ some 0))
        ∨
        (cols ≠ [] ∧ (∀ c ∈ cols, (colOptsOf c).minWidth = none ∨ (colOptsOf c).width.isSome = true) ∧
         ((cfg.fl.flexNegative = false ∧ cfg.fl.flexClampZero = false) ∨ (toTable cfg (to.subst cfg.env) (colsR cfg cols)).NoRatio) ∧
         tableBudget cfg (to.subst cfg.env) (colsR cfg cols) w))
-  | .columns co items, o, w => annDom co.title o ∧ co.lay.width = none ∧ items.length ≤ w
+  | .columns co _, o, _ => annDom co.title o ∧ co.lay.width = none
   | .tree _, _, _ => True
 def DomL (cfg : Cfg) : List R → Opts → Nat → Prop
   | [], _, _ => True
